@@ -1,6 +1,6 @@
 //! C07: compilation is deterministic.
 //!
-//! request : C07.repeat \t <dx|vk|vkba|msl> \t <all|nopipeline> \t <gen:<seed> | clash:<seed> | share:<seed> | inline:<seed> | cycle:<seed> | disk:<root>|<entry>
+//! request : C07.repeat \t <dx|vk|vkba|msl> \t <all|nopipeline> \t <gen:<seed> | clash:<seed> | share:<seed> | fix3:<seed> | inline:<seed> | cycle:<seed> | disk:<root>|<entry>
 //!                                                                  | diag:<family>:<seed> | src:<hex of the source>>
 //! observe : digest of sources + stages + metadata + pipeline state, or of the fully rendered diagnostic
 //!           (message, file, line, column, source excerpt, notes) followed by `|<stage>/<error variant>`
@@ -58,6 +58,9 @@ fn source_of(id: &str) -> Option<Input> {
     } else if let Some(seed) = id.strip_prefix("share:") {
         let seed: u64 = seed.parse().ok()?;
         Some(mem(share_program(&mut Rng::new(seed))))
+    } else if let Some(seed) = id.strip_prefix("fix3:") {
+        let seed: u64 = seed.parse().ok()?;
+        Some(mem(fix3_program(&mut Rng::new(seed))))
     } else if let Some(rest) = id.strip_prefix("disk:") {
         let (root, entry) = rest.split_once('|')?;
         Some(Input { disk: Some((root.to_string(), entry.to_string())), files: Vec::new(), layout: false, defines: Vec::new() })
@@ -187,6 +190,108 @@ fn share_program(rng: &mut Rng) -> String {
     s.push_str("[numthreads(1, 1, 1)]\nvoid entry()\n{\n");
     for c in &calls {
         s.push_str(c);
+    }
+    s.push_str("}\nPipeline P\n{\n    ComputeShader = entry;\n}\n");
+    s
+}
+
+/// Accepted programs through the code that fix batch 3 adds or changes.
+/// * fe5dd8d: enum values that share their name with a constant buffer block of the same scope, the block declared
+///   BEFORE the enum (this order reached `assert_eq!(symbols.len(), 1)` in `end_enum`) or after it, in the global scope
+///   and in 0-2 namespaces, 2-7 values per enum so that the promotion loop walks several names in hash order, some
+///   enums uint backed; the exporters have to tell the same-named symbols apart (`A_0`, `A_1` on Metal).
+/// * 80dd7f9: the enums meet int / uint / bool operands and untyped literals in binary operations.
+/// * 92d66eb, b6f2da1, 5d2f434: float remainder assignments on locals, members, vectors, groupshared; casts between
+///   vectors and one component vectors; struct casts of a scalar variable.
+/// * 265a080: float literals with up to 17 significant digits; c805c03: swizzles of exactly four components.
+fn fix3_program(rng: &mut Rng) -> String {
+    let bases = ["Alpha", "Beta", "Gamma", "Delta", "Kappa", "Sigma", "Omega", "Theta", "Light", "Data", "Item", "Mask"];
+    let nns = rng.below(3) as usize;
+    let mut s = String::from("struct Pod\n{\n    float a;\n    int b;\n    uint c[2];\n    uint2 d;\n};\ngroupshared float3 gs_shared;\n");
+    let mut stmts: Vec<String> = Vec::new();
+    let scopes: Vec<Option<String>> = std::iter::once(None).chain((0..nns).map(|k| Some(format!("ns{}", k)))).collect();
+    let mut counter = 0;
+    for scope in &scopes {
+        if let Some(ns) = scope {
+            s.push_str(&format!("namespace {}\n{{\n", ns));
+        }
+        let q = match scope { Some(ns) => format!("{}::", ns), None => String::new() };
+        let tag = match scope { Some(ns) => ns.clone(), None => "g".to_string() };
+        let nenums = rng.range(1, 3) as usize;
+        let mut used: Vec<String> = Vec::new();
+        for e in 0..nenums {
+            let nvals = rng.range(2, 7) as usize;
+            let mut vals: Vec<String> = Vec::new();
+            while vals.len() < nvals {
+                let b = *rng.pick(&bases);
+                let name = if used.iter().any(|u| u == b) { format!("{}{}", b, used.len()) } else { b.to_string() };
+                used.push(name.clone());
+                vals.push(name);
+            }
+            let ename = format!("Kind_{}_{}", tag, e);
+            let unsigned = rng.chance(1, 3);
+            // which values share their name with a cbuffer block, and on which side of the enum the block is declared
+            let mut before: Vec<String> = Vec::new();
+            let mut after: Vec<String> = Vec::new();
+            for v in &vals {
+                if rng.chance(1, 2) {
+                    let decl = format!("cbuffer {}\n{{\n    float4 member_{}_{};\n}}\n", v, tag, v);
+                    if rng.chance(2, 3) { before.push(decl) } else { after.push(decl) }
+                    stmts.push(format!("    total = total + {}member_{}_{}.x;\n", q, tag, v));
+                }
+            }
+            for d in &before {
+                s.push_str(d);
+            }
+            let mut items: Vec<String> = Vec::new();
+            for (i, v) in vals.iter().enumerate() {
+                if unsigned && i == nvals - 1 {
+                    items.push(format!("    {} = 4294967295u", v));
+                } else if rng.chance(1, 3) {
+                    items.push(format!("    {} = {}", v, 10 * i + rng.below(10) as usize));
+                } else {
+                    items.push(format!("    {}", v));
+                }
+            }
+            s.push_str(&format!("enum {}\n{{\n{}\n}};\n", ename, items.join(",\n")));
+            for d in &after {
+                s.push_str(d);
+            }
+            // the enum next to other types in binary operations (80dd7f9)
+            let var = format!("e{}", counter);
+            counter += 1;
+            let v0 = &vals[rng.below(nvals as u64) as usize];
+            stmts.push(format!("    {}{} {} = {}{};\n", q, ename, var, q, v0));
+            let ops = ["{} == 0", "{} + 1", "{} == 1", "{} > (int)0", "true + {}", "{} + 1u", "3 - {}", "{} != 5u", "{} & 3u", "{} | 4", "{} % 3"];
+            for _ in 0..rng.range(1, 4) {
+                let op = rng.pick(&ops).replace("{}", &var);
+                stmts.push(format!("    if ((bool)({}))\n    {{\n        total = total + 1.0f;\n    }}\n", op));
+            }
+        }
+        if scope.is_some() {
+            s.push_str("}\n");
+        }
+    }
+    // float remainder assignments, one component vectors, struct casts, literals, swizzles
+    s.push_str("float1 narrow(float3 v)\n{\n    float1 a = (float1)v;\n    return a + v.y;\n}\nfloat widen(float1 v)\n{\n    return (float)v;\n}\n");
+    let mut misc: Vec<String> = Vec::new();
+    for i in 0..rng.range(2, 6) {
+        match rng.below(7) {
+            0 => misc.push(format!("    float3 r{} = float3(total, 2.0f, 3.0f);\n    r{} %= float3(2.0f, 2.0f, 2.0f);\n    total = total + r{}.x;\n", i, i, i)),
+            1 => misc.push(format!("    gs_shared %= float3(total, 1.0f, 1.0f);\n    Pod p{} = (Pod)total;\n    p{}.a %= 2.0f;\n    total = total + p{}.a;\n", i, i, i)),
+            2 => misc.push(format!("    float1 o{} = narrow(float3(total, total, total));\n    total = total + widen(o{});\n", i, i)),
+            3 => {
+                let bits = ((rng.range(1, 254) as u32) << 23) | (rng.next() as u32 & 0x7f_ffff);
+                misc.push(format!("    total = total + {:e}f;\n", f32::from_bits(bits) as f64));
+            }
+            4 => misc.push(format!("    float4 w{} = float4(total, 1.0f, 2.0f, 3.0f);\n    total = total + w{}.{}.{};\n", i, i, rng.pick(&["xyzw", "wzyx", "xxxx", "rgba", "yyzz"]), rng.pick(&["wzyx", "x", "yx"]))),
+            5 => misc.push(format!("    float m{}[4];\n    m{}[1] = total;\n    m{}[1] %= 3.0f;\n    total = total + m{}[1];\n", i, i, i, i)),
+            _ => misc.push(format!("    total = total + total.{};\n", rng.pick(&["x", "r", "xxxx.y", "rrr.b"]))),
+        }
+    }
+    s.push_str("[numthreads(1, 1, 1)]\nvoid entry()\n{\n    float total = 0.0f;\n");
+    for st in stmts.iter().chain(misc.iter()) {
+        s.push_str(st);
     }
     s.push_str("}\nPipeline P\n{\n    ComputeShader = entry;\n}\n");
     s
@@ -362,14 +467,14 @@ fn unescape(s: &str) -> String {
 /// the text of a generated rejected program, for the failure report
 fn program_text(id: &str) -> String {
     let id = id.strip_prefix("defs:").and_then(|r| r.split_once('|')).map(|r| r.1).unwrap_or(id);
-    if !is_diag_stream(id) && !id.starts_with("resv:") && !id.starts_with("cycle:") {
+    if !is_diag_stream(id) && !id.starts_with("resv:") && !id.starts_with("cycle:") && !id.starts_with("fix3:") {
         return String::new();
     }
     match source_of(id) {
         Some(input) => {
             let mut t = String::from("; program:");
             for (n, f) in &input.files {
-                t.push_str(&format!(" [{}] <<{}>>", n, clip(f, if id.starts_with("cycle:") { 6000 } else { 1500 })));
+                t.push_str(&format!(" [{}] <<{}>>", n, clip(f, if id.starts_with("cycle:") || id.starts_with("fix3:") { 6000 } else { 1500 })));
             }
             t
         }
@@ -746,7 +851,9 @@ fn run_repeat_requests(lines: &[String], out: &mut Out, hist: &mut Hist) {
             "source=name-clash"
         } else if id.starts_with("share:") {
             "source=name-shared-in-scope"
-        } else if id.starts_with("inline:") {
+                } else if id.starts_with("fix3:") {
+            "source=fix-batch-3-programs"
+} else if id.starts_with("inline:") {
             "source=inline-descriptor-groups"
         } else if id.starts_with("cycle:") {
             "source=call-cycles"
@@ -932,6 +1039,28 @@ pub fn run(args: &Args, out: &mut Out) {
             lines.push(format!("C07.repeat\t{}\t{}\tdisk:{}|{}", t.name(), mode, root, entry));
         }
     }
+    // fix batch 3: the rejections it introduces and accepted programs through the code it adds; seeds from a separate
+    // generator so that every request above keeps the seed it had before
+    {
+        let mut rng3 = Rng::new(args.seed ^ 0xf1c5_ba7c_0003);
+        for (fi, family) in diag::FAMILIES_FIX3.iter().enumerate() {
+            for j in 0..per_family {
+                let seed = rng3.next() >> 16;
+                let every_target = family.starts_with("export");
+                for (ti, t) in ALL_TARGETS.iter().enumerate() {
+                    if every_target || ti == (fi + j as usize) % 4 {
+                        lines.push(format!("C07.repeat\t{}\tall\tdiag:{}:{}", t.name(), family, seed));
+                    }
+                }
+            }
+        }
+        for _ in 0..n / 3 {
+            let seed = rng3.next() >> 16;
+            for t in ALL_TARGETS {
+                lines.push(format!("C07.repeat\t{}\tall\tfix3:{}", t.name(), seed));
+            }
+        }
+    }
     // history independence: sequences of requests in one process against each request alone in a fresh process.
     // Every sequence compiles a program declaring identifiers reserved by exactly one back end for an HLSL target
     // and for Metal, surrounded by other targets, the same input with other defines, other inputs and rejected inputs.
@@ -989,7 +1118,7 @@ pub fn run(args: &Args, out: &mut Out) {
     out.stat(&format!(
         "{{\"requests\":{},\"repeats_in_process\":\"5 (accepted-program streams) / 8 (diagnostics streams)\",\"fresh_processes\":3,\"history\":\"each item alone in a fresh process vs 4 orders of the sequence in fresh processes vs the long-running harness process\",\"diag_families\":{},\"hist\":{}}}",
         lines.len(),
-        diag::FAMILIES.len(),
+        diag::FAMILIES.len() + diag::FAMILIES_FIX3.len(),
         hist.json()
     ));
 }
